@@ -297,6 +297,8 @@ func SecretFamily(seed int64) []SecretPair {
 			out = append(out, p)
 		}
 	}
+	// the default configuration: neither server is given a secret (each draws its own)
+	out = append(out, SecretPair{Name: "both-default"}, SecretPair{Name: "both-default-again"})
 	return out
 }
 
@@ -573,10 +575,12 @@ func TimeMatrix(mk func(*World) System, res *vfh.Result, profile string) error {
 	return nil
 }
 
-// ServerHostMatrix: state minted for one name of a confusable pair presented under the other name
-// (same server, same secret, same key).  A challenge state must be refused (the hostname is part of the
-// state and of the signed data).  A bearer token: the code does not compare the token's hostname on
-// the bearer path and the statement does not name the hostname for tokens; recorded (L2), not judged.
+// ServerHostMatrix: one server with two valid hostnames of a confusable pair.  For both flows
+// (server-initiated, client-initiated), every leg's header produced for hA (as produced, i.e. signed
+// for hA, and re-signed by the attacker for hB) is replayed under hB, in both directions of the pair.
+// L1: no peer reported, no token minted.  Vacuity guard per cell: the same header is accepted under hA.
+// A bearer token under the other name: the code does not compare the token's hostname on the bearer
+// path and the statement does not name the hostname for tokens; recorded (L2), not judged.
 func ServerHostMatrix(mk func(*World) System, res *vfh.Result, profile string) error {
 	if profile == "" {
 		profile = "ed25519"
@@ -586,6 +590,7 @@ func ServerHostMatrix(mk func(*World) System, res *vfh.Result, profile string) e
 		return err
 	}
 	var names []string
+	cells := map[string]int{}
 	for _, hp := range HostFamily() {
 		names = append(names, hp.Name)
 		for dir := 0; dir < 2; dir++ {
@@ -596,42 +601,84 @@ func ServerHostMatrix(mk func(*World) System, res *vfh.Result, profile string) e
 			w := &World{Keys: keys, HmacKey: map[string][]byte{"S": []byte("host-matrix-secret-S"), "S2": []byte("host-matrix-secret-S2")},
 				SrvKey: map[string]string{"S": "kS", "S2": "kS"}, Host: map[string]string{"h1": a, "h1a": b}, TokenTTL: time.Hour}
 			sys := mk(w)
-			m := ParseParams(sys.Server("S", a, "").WWW)
-			if m["opaque"] == "" {
-				return fmt.Errorf("host matrix: no challenge for %q", a)
-			}
-			hdrFor := func(signedHost string) string {
-				sg, err := keys.Priv["kA"].Sign(Payload("cli", []byte(m["challenge-client"]), keys.PubB["kS"], signedHost))
+			sign := func(ch, host string) []byte {
+				sg, err := keys.Priv["kA"].Sign(Payload("cli", []byte(ch), keys.PubB["kS"], host))
 				if err != nil {
 					panic(err)
 				}
-				return compose([]param{{k: "public-key", raw: keys.PubB["kA"]}, {k: "opaque", txt: m["opaque"]}, {k: "sig", raw: sg}, {k: "challenge-server", txt: aNonceStr}})
+				return sg
 			}
-			for _, sh := range []string{a, b} {
-				res.Inc("host_matrix_requests", 1)
-				if o := sys.Server("S", b, hdrFor(sh)); o.Accepted {
-					res.AddMismatch(vfh.Mismatch{Class: "srv-accepts-wrong-hostname", Walk: -1, What: fmt.Sprintf("a challenge state minted for %q is accepted in a request to %q (signature over %q)", a, b, sh),
-						Expected: "rejected", Got: keys.nameOfID(o.Peer)})
+			for _, flow := range []string{"server-initiated", "client-initiated"} {
+				// leg 1 under hA
+				leg1 := ""
+				if flow == "client-initiated" {
+					leg1 = compose([]param{{k: "challenge-server", txt: aNonceStr}, {k: "public-key", raw: keys.PubB["kA"]}})
 				}
-			}
-			own := sys.Server("S", a, hdrFor(a))
-			tok := ParseParams(own.Info)["bearer"]
-			if !own.Accepted || tok == "" {
-				res.AddMismatch(vfh.Mismatch{Class: "L2:host-matrix-own-refused", Walk: -1, What: fmt.Sprintf("handshake for %q refused: %s", a, own.Detail)})
-				continue
-			}
-			res.Inc("host_matrix_requests", 1)
-			if o := sys.Server("S", b, compose([]param{{k: "bearer", txt: tok}})); o.Accepted {
-				res.Inc("tokens_accepted_under_other_host", 1)
-				res.AddMismatch(vfh.Mismatch{Class: "L2:token-accepted-under-other-host", Walk: -1,
-					What: fmt.Sprintf("the server accepts the bearer token it minted for Host %q in a request with Host %q (the bearer path does not compare the token's hostname)", a, b)})
+				m := ParseParams(sys.Server("S", a, leg1).WWW)
+				if m["opaque"] == "" || m["challenge-client"] == "" {
+					return fmt.Errorf("host matrix: no challenge for %q (%s)", a, flow)
+				}
+				for _, signedFor := range []string{"hA", "hB"} {
+					sh := a
+					if signedFor == "hB" {
+						sh = b
+					}
+					ps := []param{{k: "opaque", txt: m["opaque"]}, {k: "sig", raw: sign(m["challenge-client"], sh)}}
+					if flow == "server-initiated" {
+						ps = append(ps, param{k: "public-key", raw: keys.PubB["kA"]}, param{k: "challenge-server", txt: aNonceStr})
+					}
+					hdr := compose(ps)
+					cell := fmt.Sprintf("%s/final-leg/signed-for-%s/dir%d", flow, signedFor, dir)
+					res.Inc("host_matrix_requests", 1)
+					o := sys.Server("S", b, hdr)
+					if o.Accepted || ParseParams(o.Info)["bearer"] != "" {
+						res.AddMismatch(vfh.Mismatch{Class: "srv-accepts-wrong-hostname", Walk: -1,
+							What: fmt.Sprintf("%s flow, pair %s: the final leg (opaque + sig) produced for %q, signature over %q, is accepted in a request to %q (peer reported: %v, token minted: %v)",
+								flow, hp.Name, a, sh, b, o.Accepted, ParseParams(o.Info)["bearer"] != ""), Expected: "rejected", Got: map[string]any{"header": hdr, "reported": keys.nameOfID(o.Peer)}})
+					}
+					if signedFor == "hA" {
+						// vacuity guard: the very same header is a valid final leg under hA
+						own := sys.Server("S", a, hdr)
+						if !own.Accepted || own.Peer != keys.ID["kA"] {
+							return fmt.Errorf("host matrix: vacuous cell %s for pair %s: the header is not accepted under its own hostname %q: %s", cell, hp.Name, a, own.Detail)
+						}
+						cells[cell]++
+						tok := ParseParams(own.Info)["bearer"]
+						if tok != "" && flow == "server-initiated" {
+							res.Inc("host_matrix_requests", 1)
+							if o := sys.Server("S", b, compose([]param{{k: "bearer", txt: tok}})); o.Accepted {
+								res.Inc("tokens_accepted_under_other_host", 1)
+								res.AddMismatch(vfh.Mismatch{Class: "L2:token-accepted-under-other-host", Walk: -1,
+									What: fmt.Sprintf("the server accepts the bearer token it minted for Host %q in a request with Host %q (the bearer path does not compare the token's hostname)", a, b)})
+							}
+						}
+					} else {
+						cells[cell]++
+					}
+				}
+				// leg 1 itself under hB reports nobody (it only mints)
+				res.Inc("host_matrix_requests", 1)
+				if o := sys.Server("S", b, leg1); o.Accepted {
+					res.AddMismatch(vfh.Mismatch{Class: "srv-reports-peer-without-credentials", Walk: -1, What: flow + ": first leg reports a peer"})
+				}
+				cells[flow+"/first-leg/dir"+fmt.Sprint(dir)]++
 			}
 			if c, ok := sys.(interface{ Close() }); ok {
 				c.Close()
 			}
 		}
 	}
+	for _, flow := range []string{"server-initiated", "client-initiated"} {
+		for dir := 0; dir < 2; dir++ {
+			for _, c := range []string{fmt.Sprintf("%s/final-leg/signed-for-hA/dir%d", flow, dir), fmt.Sprintf("%s/final-leg/signed-for-hB/dir%d", flow, dir), fmt.Sprintf("%s/first-leg/dir%d", flow, dir)} {
+				if cells[c] != len(HostFamily()) {
+					return fmt.Errorf("host matrix: cell %s ran %d times for %d pairs", c, cells[c], len(HostFamily()))
+				}
+			}
+		}
+	}
 	res.Set("hostname_pair_family", names)
+	res.Set("server_host_matrix_cells", len(cells))
 	return nil
 }
 
@@ -2165,7 +2212,7 @@ func Replay(mk func(*World) System, res *vfh.Result, opt Options) error {
 			nwalk++
 			w := *w0
 			w.HmacKey = map[string][]byte{"S": pair.A, "S2": pair.B}
-			if (wk.Walk/len(rot))%2 == 1 && pair.B != nil {
+			if (wk.Walk/len(rot))%2 == 1 && pair.B != nil && pair.A != nil {
 				w.HmacKey = map[string][]byte{"S": pair.B, "S2": pair.A}
 			}
 			used[pair.Name]++
